@@ -57,6 +57,17 @@ EditConforms(e) ==
     /\ InLang(EditType(e.fam, IF e.op = "resolve" THEN "full" ELSE e.kind), e.post)
     /\ e.post \in EditApply(e.fam, e.kind, e.pre, [op |-> e.op, arg |-> e.arg])
 
+(* ---- a buffer obtained by conversion, default() or from_scheme holds exactly the text the  *)
+(* ---- route was given (C04 "however obtained", C13); "pre" is that text: the parsed one,    *)
+(* ---- <<>> for default(), scheme \o ":" for from_scheme                                      *)
+OriginConforms(e) ==
+    /\ e.panic = FALSE
+    /\ e.text = e.pre
+    /\ InLang(RefType(e.fam, e.kind), e.text)
+    /\ e.how = "default" => e.text = <<>>
+    /\ e.how = "from_scheme" => /\ Len(e.text) > 0 /\ e.text[Len(e.text)] = 58
+                                 /\ InLang("Scheme", SubSeq(e.text, 1, Len(e.text) - 1))
+
 (* ---- construction: verdict and components of random texts (C01, C02) ---- *)
 ParseConforms(e) ==
     /\ e.panic = FALSE
@@ -103,6 +114,7 @@ Conforms(e) ==
       [] e.ev = "parse_bytes" -> ParseBytesConforms(e)
       [] e.ev = "auth"   -> AuthConforms(e)
       [] e.ev = "edit"   -> EditConforms(e)
+      [] e.ev = "origin" -> OriginConforms(e)
       [] e.ev = "suffix" -> SuffixConforms(e)
       [] OTHER -> FALSE
 
